@@ -3697,6 +3697,64 @@ def _split_selector_calls(trees, known):
     return n
 
 
+def _properties_as_methods(trees, known):
+    """A read-only property the census does not know, only ever read as
+    `self.<name>`: the same program with a plain method and `self.<name>()`,
+    which the inliner then writes out like any helper."""
+    n = 0
+    for path, tree in trees.items():
+        if '/_verif_' in path:
+            continue
+        mod = modname_of(path)
+        for kind, owner, node in list(_defs(tree)):
+            if owner is None or len(node.decorator_list) != 1 or \
+                    not isinstance(node.decorator_list[0], ast.Name) or \
+                    node.decorator_list[0].id != 'property' or \
+                    '%s.%s.%s' % (mod, owner.name, node.name) in known or \
+                    len(node.args.args) != 1 or node.args.vararg or \
+                    node.args.kwarg or node.args.kwonlyargs or \
+                    node.args.args[0].arg != 'self':
+                continue
+            name = node.name
+            uses = []
+            ok = True
+            for t in trees.values():
+                callfuncs = {id(x.func) for x in ast.walk(t)
+                             if isinstance(x, ast.Call)}
+                for x in ast.walk(t):
+                    if isinstance(x, ast.Attribute) and x.attr == name:
+                        if isinstance(x.ctx, ast.Load) and \
+                                isinstance(x.value, ast.Name) and \
+                                x.value.id == 'self' and \
+                                id(x) not in callfuncs:
+                            uses.append((t, x))
+                        else:
+                            ok = False
+                    elif isinstance(x, ast.Attribute) and isinstance(
+                            x.value, ast.Name) and x.value.id == name and \
+                            x.attr in ('setter', 'deleter', 'getter'):
+                        ok = False
+                    elif isinstance(x, ast.Constant) and x.value == name:
+                        ok = False
+                    elif isinstance(x, ast.ClassDef) and x is not owner and \
+                            any(isinstance(b, (ast.FunctionDef, ast.Assign))
+                                and (getattr(b, 'name', None) == name or any(
+                                    isinstance(tg, ast.Name) and
+                                    tg.id == name for tg in
+                                    getattr(b, 'targets', [])))
+                                for b in x.body):
+                        ok = False
+            if not ok or not uses:
+                continue
+            node.decorator_list = []
+            for t, x in uses:
+                _Replace(x, ast.copy_location(ast.Call(
+                    func=x, args=[], keywords=[]), x)).visit(t)
+                ast.fix_missing_locations(t)
+            n += 1
+    return n
+
+
 def normalise(trees, known=None):
     """Inline the helpers that are not in the census; mutates `trees`
     ({path: ast.Module}); returns the log [(qname, sites, removed)]."""
@@ -3707,6 +3765,7 @@ def normalise(trees, known=None):
     clog += inline_new_class_constants(trees, known)
     n = desugar(trees)
     n += _split_selector_calls(trees, known)
+    _properties_as_methods(trees, known)
     ilog = Inliner(trees, known).run()
     log = clog + ilog
     n += thread_decisions(trees)
